@@ -119,6 +119,13 @@ func laneSchedule(spec propSpec) []lane {
 			plain = append(plain, l)
 		}
 	}
+	if only := os.Getenv("VERIF_ONLY_LANE"); only != "" { // debugging: run a single lane
+		for _, l := range append(append([]lane{}, plain...), extra...) {
+			if strings.Contains(l.key, only) {
+				return []lane{l}
+			}
+		}
+	}
 	if len(extra) == 0 {
 		return plain
 	}
@@ -180,7 +187,8 @@ var props = map[string]propSpec{
 	"C09": {Engine: "proxysim", Level: "fault_enumeration", Batch: 300, QuickSec: 30, ThorSec: 600,
 		Rule: "one case = topology 1-3 shards x 1-3 replicas hot (+ optional long-term tier), real bulk.SeqDBClient with the real circuit breaker (timeouts 50ms..1s, thresholds, sleep window on the fake clock) over scripted stub stores; per replica and call one of: ok, error, hang until the deadline, success after the deadline, reply lost, answer right at the deadline; 1-2 concurrent clients; oracle over the stubs' call log: acknowledged => some hot shard (and some long-term shard) has every replica with a successful call carrying exactly this payload, at most BulkMaxTries deliveries per replica, progress once faults stop; non-trivial = a non-ok outcome fired or the scheduler pre-empted; distinct = distinct (interleaving hash, fired outcome counts)",
 		Assume: []string{"stub stores answer as scripted; the payload is opaque bytes"},
-		Real:   []string{"proxy/bulk.SeqDBClient (storeDocs, sendBulkToStores, shard.Bulk, write status)", "network/circuitbreaker + cep21/circuit (real)"}, Stub: []string{"stores = scripted StoreApiClient stubs", "clock = synctest fake clock", "scheduling = verifsim"}},
+		Real:   []string{"proxy/bulk.SeqDBClient (storeDocs, sendBulkToStores, shard.Bulk, write status)", "network/circuitbreaker + cep21/circuit (real)", "second lane (every 4th chunk): the same client against real stores (fracmanager, frac, storeapi.GrpcV1) that crash in the middle of their writes, lose replies and are partitioned; afterwards every acknowledged bulk must sit, byte for byte, on every replica of some hot shard (and some long-term shard)"}, Stub: []string{"stores = scripted StoreApiClient stubs (first lane)", "transport = simnet (second lane)", "clock = synctest fake clock", "scheduling = verifsim"},
+		Variants: []string{"lane:storesim:cluster-c09:4"}},
 	"C10": {Engine: "proxysim", Level: "exploration", Batch: 300, QuickSec: 30, ThorSec: 600,
 		Rule: "one case = an ES bulk body from a grammar (action/document lines, valid object documents with escapes/unicode/nesting, non-objects, invalid JSON, over-size lines, empty lines, CRLF, unknown actions, missing final newline, body cut at byte k, read error at byte k, gzip) handed to the real BulkHandler.ServeHTTP -> real bulk.Ingestor (processor, indexer, tokenizers) -> capturing StorageClient, at a simulated clock; document times at -drift-1s, -drift, -drift+1s, +future-1s, +future, +future+1s and far; the same body is delivered four times with different chunkings of the reader (whole, byte by byte, two seeded chunkings); oracle = independent framing parser + time rule; the outcome must be identical for every chunking; in 40% of the cases all deliveries go through one long-lived ingestor with the simulated clock advancing 0 ms .. 2 x drift between them (pooled per-request state meets requests of different times); in 30% a concurrent phase follows: 2-4 requests (documents marked with their request number) at once on one handler, optionally after a request whose store call failed, the body reader yielding at every Read under the seeded scheduler: every request must get the outcome of its own body and every storage call must carry the documents of exactly one request; non-trivial = always (every case exercises the stream); distinct = distinct (status counts, interleaving hash)",
 		Assume: []string{"document lines stay clear of the size limit itself (50 bytes below / 10 above): the boundary behaviour of the limit depends on the line terminator and is not part of the property", "valid/invalid JSON judged by encoding/json on clear-cut cases"},
@@ -514,7 +522,7 @@ func cmdCheck(args []string) int {
 		bv.profile = l.profile
 		builds[l.key] = bv
 	}
-	b := builds["default"]
+	b := builds[sched[0].key]
 	budget := time.Duration(spec.QuickSec) * time.Second
 	if f.tier == "thorough" {
 		budget = time.Duration(spec.ThorSec) * time.Second
